@@ -53,27 +53,9 @@ class PathEnd(Exception):
 
 # --------------------------------------------------------------------------
 
-_quant_cache = {}
-
-
 def has_quantifier(t):
-    i = t.get_id()
-    r = _quant_cache.get(i)
-    if r is None:
-        r = False
-        stack, seen = [t], set()
-        while stack:
-            x = stack.pop()
-            xi = x.get_id()
-            if xi in seen:
-                continue
-            seen.add(xi)
-            if z3.is_quantifier(x):
-                r = True
-                break
-            stack.extend(x.children())
-        _quant_cache[i] = r
-    return r
+    from .vc import has_q
+    return has_q(t)
 
 
 class Obligation:
